@@ -47,6 +47,9 @@ pub struct SimState {
     next_id: u64,
     pub reads: u64,
     pub read_bytes: u64,
+    /// while set, device reads stay in flight (they complete, with the bytes the device holds *then*, on release)
+    pub read_gated: bool,
+    read_waiters: Vec<oneshot::Sender<()>>,
 }
 
 #[derive(Clone, Default)]
@@ -79,6 +82,21 @@ impl Sim {
 
     pub fn set_gated(&self, on: bool) {
         self.st.lock().gated = on;
+    }
+
+    /// hold / release device reads
+    pub fn set_read_gated(&self, on: bool) {
+        let mut st = self.st.lock();
+        st.read_gated = on;
+        if !on {
+            for tx in st.read_waiters.drain(..) {
+                let _ = tx.send(());
+            }
+        }
+    }
+
+    pub fn reads_in_flight(&self) -> usize {
+        self.st.lock().read_waiters.len()
     }
 
     /// ids of the writes that were issued but not yet applied, in issue order
@@ -130,12 +148,30 @@ pub struct SimIoEngine {
 impl IoEngine for SimIoEngine {
     fn read(&self, mut buf: Box<dyn IoBufMut>, partition: &dyn Partition, offset: u64) -> IoHandle {
         let (raw, off) = partition.translate(offset);
-        let res = pread(raw.0, off, &mut buf[..]).map_err(Error::io_error);
-        {
+        let gate = {
             let mut st = self.sim.st.lock();
             st.reads += 1;
             st.read_bytes += buf.len() as u64;
+            if st.read_gated {
+                let (tx, rx) = oneshot::channel();
+                st.read_waiters.push(tx);
+                Some(rx)
+            } else {
+                None
+            }
+        };
+        if let Some(rx) = gate {
+            let fd = raw.0;
+            let fut: BoxFuture<'static, (Box<dyn IoB>, Result<()>)> = async move {
+                let _ = rx.await;
+                let res = pread(fd, off, &mut buf[..]).map_err(Error::io_error);
+                let b: Box<dyn IoB> = buf.into_iob();
+                (b, res)
+            }
+            .boxed();
+            return fut.into();
         }
+        let res = pread(raw.0, off, &mut buf[..]).map_err(Error::io_error);
         let fut: BoxFuture<'static, (Box<dyn IoB>, Result<()>)> = async move {
             let b: Box<dyn IoB> = buf.into_iob();
             (b, res)
